@@ -7,7 +7,7 @@ id=$1; wt=${2:-/tmp/wt-$id}
 if [ $# -ge 2 ]; then shift 2; else shift 1; fi
 dst=/verif/seeded/${DST:-$id}
 mkdir -p $dst
-if [ -d "$wt/SEEDED" ]; then cp $wt/SEEDED/patch.diff $wt/SEEDED/demo.py $wt/SEEDED/notes.md $dst/ 2>/dev/null; fi
+if [ -d "$wt/SEEDED" ]; then cp $wt/SEEDED/patch.diff $wt/SEEDED/demo.py $wt/SEEDED/notes.md $dst/ 2>/dev/null; cp $wt/SEEDED/fuzz.py $dst/ 2>/dev/null; fi
 cd /repo || exit 2
 [ -n "$(git status --porcelain --untracked-files=no)" ] && { echo "/repo dirty"; exit 2; }
 {
